@@ -178,7 +178,9 @@ impl<'a, W: Read + Write> QueryResultWriter<'a, W> {
 
 impl<'a, W: Read + Write> Drop for QueryResultWriter<'a, W> {
     fn drop(&mut self) {
-        self.finalize(false).unwrap();
+        if let Err(e) = self.finalize(false) {
+            self.writer.park_error(e);
+        }
     }
 }
 
@@ -398,6 +400,10 @@ impl<'a, W: Read + Write + 'a> RowWriter<'a, W> {
 
 impl<'a, W: Read + Write + 'a> Drop for RowWriter<'a, W> {
     fn drop(&mut self) {
-        self.finish_inner(true).unwrap();
+        if let Err(e) = self.finish_inner(true) {
+            if let Some(result) = self.result.as_mut() {
+                result.writer.park_error(e);
+            }
+        }
     }
 }
